@@ -155,3 +155,22 @@ PROPS["C20"] = dict(
     assumptions=["a sub-command 'cannot do what was asked' iff the library rejects the same input or a per-item read fails"],
     drivers=[drivers.c20_driver],
 )
+
+PROPS["C19"] = dict(
+    rule=("150 (quick) / 1500 (thorough) single-threaded call histories of 5..40 calls over {open, close, open-file, close-file, "
+          "read, seek (32/64-bit offsets, all three origins, negative and huge), size, has-file, find-first/next/close} on two "
+          "archives with live, stale, closed, null and forged handle values and caller buffers fenced by canaries, each "
+          "answer compared with the Lean handle-table model (stateful) and contents/sizes/existence with the Rust API; long "
+          "(> 260 byte) names through SFileGetFileName and the find data; 3 (12) multi-threaded stress runs (4/8 threads "
+          "sharing archive handles, one thread churning open/close and stale closes) under a watchdog; the lock-order graph "
+          "re-extracted from the source. non-trivial = a history with a successful read; distinct by FNV hash"),
+    trusted_base=COMMON_TB + [
+        "raw pointer writes are observed (canaries), not proved; real thread schedules are sampled; the lock-order graph is "
+        "a lexical scan of `.lock()` nesting (let-bound guards, match/if-let scrutinees, temporaries, calls to functions "
+        "of the same file) in tools/drivers.py:lock_graph",
+        "the C API's source is compiled into the harness with #[path] (the crate only builds as cdylib/staticlib)"],
+    assumptions=["handle ids are unique (one counter)", "add/remove/rename/flush/compact through the C API are covered by C06's "
+                 "machinery on the Rust API, not replayed here"],
+    pregen=[drivers.c19_pregen],
+    drivers=[drivers.c19_mt_driver],
+)
